@@ -466,6 +466,9 @@ var countSpecs = []countSpec{
 // access paths to the caller's.
 var incPathMap = map[*ssa.BinOp]func(accessPath) accessPath{}
 
+// incComplement: the increment belongs to a counter k used as len(xs) - k; the value is xs.
+var incComplement = map[*ssa.BinOp]ssa.Value{}
+
 // helperCount: v is result #k of a call of a module function with a single value returned in that
 // position; returns that value and the parameter-to-argument path mapping.
 func helperCount(v ssa.Value) (ssa.Value, func(accessPath) accessPath, bool) {
@@ -506,6 +509,65 @@ func incrementsOf(v ssa.Value) (incs []*ssa.BinOp, other []ssa.Value) {
 					incs = append(incs, x)
 					walk(x.X)
 					return
+				}
+				// total += k, with k an inner counter (a per-file tally added to the total)
+				for _, pr := range [][2]ssa.Value{{x.X, x.Y}, {x.Y, x.X}} {
+					ip, ok := pr[1].(*ssa.Phi)
+					if !ok || seen[ip] {
+						continue
+					}
+					// the inner web must not contain this addition (that would be the total itself)
+					inner := map[ssa.Value]bool{}
+					var reach func(v ssa.Value) bool
+					reach = func(v ssa.Value) bool {
+						if v == ssa.Value(x) {
+							return true
+						}
+						if inner[v] {
+							return false
+						}
+						inner[v] = true
+						switch y := v.(type) {
+						case *ssa.Phi:
+							for _, e := range y.Edges {
+								if reach(e) {
+									return true
+								}
+							}
+						case *ssa.BinOp:
+							return reach(y.X) || reach(y.Y)
+						}
+						return false
+					}
+					if reach(ip) {
+						continue
+					}
+					kincs, kother := incrementsOf(ip)
+					if len(kother) == 0 && len(kincs) > 0 {
+						incs = append(incs, kincs...)
+						walk(pr[0])
+						return
+					}
+				}
+				// total += len(xs) - k, with k a counter over xs: the complement, counted per batch
+				for _, pr := range [][2]ssa.Value{{x.X, x.Y}, {x.Y, x.X}} {
+					sb, ok := pr[1].(*ssa.BinOp)
+					if !ok || sb.Op != token.SUB {
+						continue
+					}
+					lc := isBuiltinCall(stripAllConv(sb.X), "len")
+					if lc == nil {
+						continue
+					}
+					cincs, cother := incrementsOf(sb.Y)
+					if len(cother) == 0 && len(cincs) > 0 {
+						for _, ci := range cincs {
+							incComplement[ci] = lc.Call.Args[0]
+						}
+						incs = append(incs, cincs...)
+						walk(pr[0])
+						return
+					}
 				}
 				// total += helper(...): the helper's own count, with its parameters mapped to the arguments
 				for _, pr := range [][2]ssa.Value{{x.X, x.Y}, {x.Y, x.X}} {
@@ -599,6 +661,8 @@ func ruleDECIDECounts(w *World, r *Report, pkgs map[string]bool) {
 			continue
 		}
 		n++
+		incComplement = map[*ssa.BinOp]ssa.Value{}
+		incPathMap = map[*ssa.BinOp]func(accessPath) accessPath{}
 		val, mapPath := throughCountingHelper(w, val)
 		wantOp := cs.op
 		// `unusable := len(d.fileData) - usable`: the complement within the very slice the other counter ranges over
@@ -627,6 +691,20 @@ func ruleDECIDECounts(w *World, r *Report, pkgs map[string]bool) {
 			continue
 		}
 		inc := incs[0]
+		if xs, isComp := incComplement[inc]; isComp {
+			// counted as the complement within xs: xs must be the slice whose elements the suffix names
+			lp := deepPath(xs)
+			if mp := incPathMap[inc]; mp != nil {
+				lp = mp(lp)
+			}
+			lp = mapPath(lp)
+			if isReceiver(fn, lp.Root) && strings.HasPrefix(cs.suffix, lp.Path+"[*]") {
+				wantOp = negate(wantOp)
+			} else {
+				r.bad("DECIDE", key, w.ipos(inc), fmt.Sprintf("%s is computed as a length minus a count, but the length is not that of the slice whose elements are counted (d%s)", cs.field, cs.suffix))
+				continue
+			}
+		}
 		found := false
 		desc := ""
 		for _, c := range cmpsAt(inc.Block()) {
